@@ -413,11 +413,16 @@ func newC14World(c *chain.Chain, n, m int64, nProv, nSameDomain, nIdle, nUnreg i
 	w.prove(pA, f1)
 	w.prove(pB, f1)
 	w.prove(pA, f2)
-	big, r := w.postFile(w.owner, append([]byte{3}, c02Content(100)...), int64(len(act)+1), 0)
+	big, r := w.postFile(w.owner, append([]byte{3}, c02Content(100)...), int64(len(act)+1+nUnreg), 0)
 	must2(r)
 	for _, a := range act {
 		w.prove(a, big)
 		w.active[a.Bech] = true
+	}
+	// accounts without a provider record prove as well (posting a proof needs no registration): they hold proofs but
+	// are not providers, so no form may name them - and their proofs are nobody else's
+	for i := 0; i < nUnreg; i++ {
+		w.prove(chain.Acc(60+i), big)
 	}
 	w.big = big
 	return w
@@ -507,6 +512,17 @@ func TestC14(t *testing.T) {
 			},
 			// a provider authorises a claim address (for reward claims); that confers nothing on forms: the claimer is not
 			// the named provider
+			// a provider shuts down: its record goes, the proofs it posted stay behind
+			"shutdown": func(rt *rapid.T) {
+				p := w.everyone[rapid.IntRange(0, len(w.everyone)-1).Draw(rt, "provider")]
+				if p.Index == 10 || p.Index == 11 {
+					rt.Skip() // the provers under discussion stay registered (forms about them need their record)
+				}
+				before := w.snap()
+				r := w.f.Exec(storagetypes.NewMsgShutdownProvider(p.Bech))
+				w.logf("provider %s shuts down -> %s", short(p.Bech), r)
+				fail(w.noEffect(before, "a provider shutdown"))
+			},
 			"addClaimer": func(rt *rapid.T) {
 				p := w.everyone[rapid.IntRange(0, len(w.everyone)-1).Draw(rt, "provider")]
 				cl := w.everyone[rapid.IntRange(0, len(w.everyone)-1).Draw(rt, "claimer")]
